@@ -6,6 +6,7 @@ PROP = dict(
     theorems=["Pops.C15_start_needs_node", "Pops.C15_start_with_node", "Pops.C15_walk_derivation",
               "Pops.C15_stays_on_network", "Pops.C15_cost", "Pops.C15_cost_index", "Pops.C15_jump",
               "Pops.C15_prefers_unvisited", "Pops.C15_terminates", "Pops.C15_teleport_adjacent",
+              "Pops.C15_kernel_forwards",
               "Pops.C15_load_clip_rule", "Pops.C15_load_clip", "Pops.C15_load_clip_inside_kept",
               "Pops.C15_load_clip_region", "Pops.C15_F17_witness", "Pops.C15_load_clip_ideal_fails",
               "Pops.C15_load_symmetric", "Pops.C15_load_merge", "Pops.C15_load_wf",
